@@ -113,7 +113,7 @@ def table(w):
     """{(converter, parent): [(kinds, paths)]} cached next to the facts"""
     here = os.path.dirname(os.path.dirname(os.path.abspath(__file__)))
     h = hashlib.sha256()
-    for fn in ('sites.py', 'kindflow.py', 'grammar.py', 'tokens.py', 'rules/tokensep.py', 'mirfacts.py', '../tables/typst_syntax_0.13.1.json'):
+    for fn in ('sites.py', 'kindflow.py', 'grammar.py', 'tokens.py', 'rules/tokensep.py', 'mirfacts.py', 'inline.py', 'world.py', '../tables/typst_syntax_0.13.1.json'):
         h.update(open(os.path.join(here, fn), 'rb').read())
     cache = os.path.join(w.facts_dir, 'tokensep-%s.pickle' % h.hexdigest()[:16])
     if os.path.exists(cache):
